@@ -1234,13 +1234,16 @@ pub fn plan_for(prop: &str, tier: Tier) -> Option<Plan> {
         "C04" => {
             let mut sp = c04_h_spaces(tier);
             sp.extend(crate::ksim::c04_spaces(tier));
+            sp.extend(crate::lsim::c04_k2_spaces(tier));
             let mut p = h_plan(
                 sp,
-                "H: every request kind with oneway:true (alone and with more:true) alone, and at every position of every sequence up to length 3 with neighbours from a 4-kind alphabet, pipelined and one per handle call (complete), plus seeded random oneway-rich sequences; K: a real MethodCall client against the real listen loop over the simulated socket, every pattern of oneway()/call() up to 6 operations. Oracle: no reply bytes for a oneway request (reply stream aligned with the non-oneway requests, attribution by token), client call after oneway returns its own token.",
+                "H: every request kind with oneway:true (alone and with more:true) alone, and at every position of every sequence up to length 3 with neighbours from a 4-kind alphabet, pipelined and one per handle call (complete), plus seeded random oneway-rich sequences; K1: the real client against a scripted server (every pattern of oneway()/call() up to 6 operations, 1..3 threads); K2: a real MethodCall client against the real listen loop over the simulated socket, every pattern of oneway()/call() up to 5 (quick) / 6 (thorough) operations over seven request kinds, plus random mixes of call / more / oneway from 1..3 real clients beside a raw peer. Oracle: no reply bytes for a oneway request (reply stream aligned with the non-oneway requests, attribution by token), client call after oneway returns its own token.",
                 lv_expl,
             );
             p.real.extend(crate::ksim::REAL_K);
             p.stub.extend(crate::ksim::STUB_K);
+            p.real.extend(crate::lsim::REAL_L);
+            p.stub.extend(crate::lsim::STUB_L);
             p
         }
         "C05" => {
